@@ -30,6 +30,31 @@ type scopeClass struct {
 	unpositioned int
 }
 
+// knownIntParams: int parameters of helper functions whose value is fixed by the call being followed
+// (`analyzeLetForm(node, 1, …)` makes bindingsIdx read as 1 inside analyzeLetForm); set by scopeSide.walk
+// while it follows that call.
+var knownIntParams = map[types.Object]int{}
+
+// intConstOrKnown: a constant, or an int parameter fixed by the call under analysis, possibly plus a constant.
+func intConstOrKnown(info *types.Info, e ast.Expr) (int, bool) {
+	if k, ok := intConst(info, e); ok {
+		return k, true
+	}
+	if o := identObj(info, e); o != nil {
+		if k, ok := knownIntParams[o]; ok {
+			return k, true
+		}
+	}
+	if be, ok := ast.Unparen(e).(*ast.BinaryExpr); ok && be.Op == token.ADD {
+		a, oka := intConstOrKnown(info, be.X)
+		b, okb := intConstOrKnown(info, be.Y)
+		if oka && okb {
+			return a + b, true
+		}
+	}
+	return 0, false
+}
+
 // constPathsOf: the constant-index access paths (lists of indexes through .Cells) by which
 // e reaches root, following every definition of the locals involved.
 func constPathsOf(info *types.Info, body ast.Node, e ast.Expr, root types.Object, depth int) [][]int {
@@ -63,7 +88,7 @@ func constPathsOf(info *types.Info, body ast.Node, e ast.Expr, root types.Object
 		if !ok || se.Sel.Name != "Cells" {
 			return nil
 		}
-		k, isC := intConst(info, x.Index)
+		k, isC := intConstOrKnown(info, x.Index)
 		if !isC {
 			return nil
 		}
@@ -159,7 +184,7 @@ func isCellsIndex(e ast.Expr, root types.Object, info *types.Info, k int) bool {
 	if !ok || se.Sel.Name != "Cells" || identObj(info, se.X) != root {
 		return false
 	}
-	v, ok := intConst(info, ie.Index)
+	v, ok := intConstOrKnown(info, ie.Index)
 	return ok && v == k
 }
 
@@ -183,6 +208,7 @@ type scopeFrame struct {
 	seed     func(e ast.Expr) bool
 	root     types.Object // the parameter whose .Cells[rootIdx] is the binding list (forwarded whole to a helper)
 	rootIdx  int
+	vals     map[types.Object]bool // bool parameters whose value the dispatch fixed
 }
 
 func (sd *scopeSide) helperOf(info *types.Info, ce *ast.CallExpr, from FuncUnit) (FuncUnit, bool) {
@@ -253,20 +279,46 @@ func (sd *scopeSide) classify(fr scopeFrame, e ast.Expr, depth int) string {
 		return cl
 	}
 	var def *ast.CallExpr
+	var alias ast.Expr
 	ndefs := 0
+	var stack []ast.Node
 	ast.Inspect(fr.u.Decl.Body, func(n ast.Node) bool {
+		if n == nil {
+			stack = stack[:len(stack)-1]
+			return true
+		}
+		if fr.skip != nil && fr.skip(n) {
+			return false // cannot run under the flag values of this dispatch
+		}
+		stack = append(stack, n)
 		as, ok := n.(*ast.AssignStmt)
 		if !ok || len(as.Lhs) != len(as.Rhs) {
 			return true
 		}
 		for i, l := range as.Lhs {
-			if identObj(info, l) == o {
+			if identObj(info, l) != o {
+				continue
+			}
+			// `valueScope := outer; if sequential { valueScope = letScope }`: with the flag known true the
+			// second assignment always runs, and replaces the first
+			if ndefs > 0 && !sd.alwaysRuns(fr, stack) {
 				ndefs++
-				def, _ = ast.Unparen(as.Rhs[i]).(*ast.CallExpr)
+				continue
+			}
+			ndefs = 1
+			def, _ = ast.Unparen(as.Rhs[i]).(*ast.CallExpr)
+			alias = nil
+			if def == nil {
+				if _, isID := ast.Unparen(as.Rhs[i]).(*ast.Ident); isID {
+					alias = as.Rhs[i]
+				}
 			}
 		}
 		return true
 	})
+	if ndefs == 1 && def == nil && alias != nil {
+		return sd.classify(fr, alias, depth+1)
+	}
 	if ndefs != 1 || def == nil {
 		return "unknown(" + o.Name() + " has no single constructor definition)"
 	}
@@ -278,6 +330,48 @@ func (sd *scopeSide) classify(fr scopeFrame, e ast.Expr, depth int) string {
 		return "inner"
 	}
 	return sd.classify(fr, parent, depth+1)
+}
+
+// alwaysRuns: every enclosing `if` of the innermost node of stack (up to the function body) has a
+// condition that is true under the frame's known flag values, the node sitting in its body.
+func (sd *scopeSide) alwaysRuns(fr scopeFrame, stack []ast.Node) bool {
+	info := fr.u.Pkg.TypesInfo
+	var eval func(e ast.Expr) int
+	eval = func(e ast.Expr) int {
+		switch x := ast.Unparen(e).(type) {
+		case *ast.Ident:
+			if v, ok := fr.vals[identObj(info, x)]; ok {
+				if v {
+					return 1
+				}
+				return 0
+			}
+		case *ast.UnaryExpr:
+			if x.Op == token.NOT {
+				if v := eval(x.X); v >= 0 {
+					return 1 - v
+				}
+			}
+		}
+		return -1
+	}
+	for i := len(stack) - 2; i >= 0; i-- {
+		switch x := stack[i].(type) {
+		case *ast.IfStmt:
+			if i+1 < len(stack) && stack[i+1] == ast.Node(x.Body) {
+				if eval(x.Cond) != 1 {
+					return false
+				}
+				continue
+			}
+			return false
+		case *ast.BlockStmt:
+			continue
+		case *ast.ForStmt, *ast.RangeStmt, *ast.SwitchStmt, *ast.TypeSwitchStmt, *ast.CaseClause, *ast.FuncLit, *ast.SelectStmt:
+			return false
+		}
+	}
+	return true
 }
 
 func (sd *scopeSide) walk(fr scopeFrame, out *scopeClass, ord *ordinal, depth int) {
@@ -387,8 +481,26 @@ func (sd *scopeSide) walk(fr scopeFrame, out *scopeClass, ord *ordinal, depth in
 				if tv, ok := info.Types[a]; ok && tv.Value != nil {
 					if b, ok := tv.Type.Underlying().(*types.Basic); ok && (b.Kind() == types.Bool || b.Kind() == types.UntypedBool) {
 						skips = append(skips, flagPruner(h.Pkg.TypesInfo, h.Decl.Body, ps[i], tv.Value.String() == "true"))
+						if sub.vals == nil {
+							sub.vals = map[types.Object]bool{}
+						}
+						sub.vals[ps[i]] = tv.Value.String() == "true"
 						continue
 					}
+					// a constant position (`analyzeLetForm(node, 1, …)`): the helper's index parameter reads as it
+					if k, ok := intConst(info, a); ok {
+						knownIntParams[ps[i]] = k
+						continue
+					}
+				}
+				// … and so does a flag this function received with a value the dispatch fixed
+				if v, ok := fr.vals[identObj(info, a)]; ok {
+					skips = append(skips, flagPruner(h.Pkg.TypesInfo, h.Decl.Body, ps[i], v))
+					if sub.vals == nil {
+						sub.vals = map[types.Object]bool{}
+					}
+					sub.vals[ps[i]] = v
+					continue
 				}
 				if mentionsT(a) {
 					sub.tainted[ps[i]] = true
@@ -777,6 +889,9 @@ func (c *Ctx) analyzerValueScope(form string) (scopeClass, FuncUnit, string) {
 	}
 	fr := scopeFrame{u: u, skip: skip, envClass: map[types.Object]string{scopeP: "outer"}, root: nodeP, rootIdx: 1,
 		seed: func(e ast.Expr) bool { return isCellsIndex(e, nodeP, info, 1) }}
+	if flagP != nil && flagVal != nil {
+		fr.vals = map[types.Object]bool{flagP: *flagVal}
+	}
 	c.analyzerSide(dfn).walk(fr, &out, &ordinal{}, 0)
 	return out, u, ""
 }
